@@ -421,3 +421,148 @@ Proof.
   - fwd I. do 2 eexists; (split; [reflexivity|]); simp; rewrite !Nat.eqb_refl.
     repeat split; auto; discriminate.
 Qed.
+
+Definition only (ts : list tid) (sched : list (tid * lbl)) : Prop :=
+  Forall (fun tl => In (fst tl) ts) sched.
+
+(* THE FIX, as a theorem.  Whenever a publisher p is at its select for subscription s (holding
+   Topic.mu) and ANY goroutine j is anywhere inside Close of s (holding Subscription.mu), then — in
+   every reachable state, whatever all other goroutines are doing — the two of them alone can take at
+   most 3 steps (<= 2 by the closer up to close(done), 1 by the publisher: the done case), each
+   enabled when taken, after which the publisher has left s for good (s is in its visited list). *)
+Theorem pub_released : forall st p s vis j x, inv st -> pp st p = PSend s vis -> kp st s j = KClose x ->
+  exists sched st', length sched <= 3 /\ only [TPub p; TSub s j] sched /\
+    run VFixed sched st = Some st' /\ pp st' p = PLoop (s :: vis) /\ inv st'.
+Proof.
+  intros st p s vis j x I Hp Hk.
+  assert (Hmap : in_map (subs st s) = true) by (eapply i_send; eauto).
+  assert (Hclr : cleared (subs st s) = false).
+  { destruct (cleared (subs st s)) eqn:E; auto. destruct (i_clr _ I _ E). congruence. }
+  assert (Hskip : forall st1, inv st1 -> pp st1 p = PSend s vis -> done (subs st1 s) = true ->
+            exists st2, run VFixed [(TPub p, LSkip)] st1 = Some st2 /\ pp st2 p = PLoop (s :: vis) /\ inv st2).
+  { intros st1 I1 Hp1 Hd1. pose proof (pub_skip st1 p s vis (i_bad _ I1) Hp1 Hd1) as Hs.
+    eexists. cbn [run]. rewrite Hs. split; [reflexivity|]. split.
+    - cbn. unfold upd. rewrite Nat.eqb_refl. reflexivity.
+    - eapply inv_step; eauto. }
+  assert (Hun : forall tl, In tl [(TSub s j, L0); (TSub s j, L0); (TPub p, LSkip)] ->
+                           In (fst tl) [TPub p; TSub s j]).
+  { intros tl [E | [E | [E | []]]]; subst; cbn; auto. }
+  pose proof (i_pc _ I _ _ _ Hk) as Hx.
+  destruct x; cbn [xinv] in Hx.
+  - (* XCheck: two closer steps, then the publisher *)
+    destruct (x_step st s j XCheck I Hk) as (st1 & b1 & S1 & K1 & P1 & T1 & _); [discriminate|].
+    rewrite Hclr in K1. cbn in K1. pose proof (inv_step _ _ _ _ _ I S1) as I1.
+    destruct (x_step st1 s j XCloseDone I1 K1) as (st2 & b2 & S2 & K2 & P2 & T2 & D2 & _); [discriminate|].
+    pose proof (inv_step _ _ _ _ _ I1 S2) as I2.
+    destruct (Hskip st2 I2) as (st3 & R3 & P3 & I3); [rewrite P2, P1; auto | auto |].
+    exists [(TSub s j, L0); (TSub s j, L0); (TPub p, LSkip)], st3.
+    split; [cbn; lia|]. split; [apply Forall_forall; auto|].
+    split; [cbn [run]; rewrite S1, S2; exact R3|]. split; auto.
+  - (* XCloseDone *)
+    destruct (x_step st s j XCloseDone I Hk) as (st2 & b2 & S2 & K2 & P2 & T2 & D2 & _); [discriminate|].
+    pose proof (inv_step _ _ _ _ _ I S2) as I2.
+    destruct (Hskip st2 I2) as (st3 & R3 & P3 & I3); [rewrite P2; auto | auto |].
+    exists [(TSub s j, L0); (TPub p, LSkip)], st3.
+    split; [cbn; lia|]. split; [apply Forall_forall; intros tl Hin; apply Hun; cbn in *; tauto|].
+    split; [cbn [run]; rewrite S2; exact R3|]. split; auto.
+  - destruct Hx. destruct (Hskip st I) as (st3 & R3 & P3 & I3); auto.
+    exists [(TPub p, LSkip)], st3.
+    split; [cbn; lia|]. split; [apply Forall_forall; intros tl Hin; apply Hun; cbn in *; tauto|].
+    split; auto.
+  - destruct Hx. destruct (Hskip st I) as (st3 & R3 & P3 & I3); auto.
+    exists [(TPub p, LSkip)], st3.
+    split; [cbn; lia|]. split; [apply Forall_forall; intros tl Hin; apply Hun; cbn in *; tauto|].
+    split; auto.
+  - destruct Hx as (_ & Hd & _). destruct (Hskip st I) as (st3 & R3 & P3 & I3); auto.
+    exists [(TPub p, LSkip)], st3.
+    split; [cbn; lia|]. split; [apply Forall_forall; intros tl Hin; apply Hun; cbn in *; tauto|].
+    split; auto.
+  - destruct Hx as (_ & Hd & _). destruct (Hskip st I) as (st3 & R3 & P3 & I3); auto.
+    exists [(TPub p, LSkip)], st3.
+    split; [cbn; lia|]. split; [apply Forall_forall; intros tl Hin; apply Hun; cbn in *; tauto|].
+    split; auto.
+  - congruence.
+Qed.
+
+(* nothing any other goroutine does can take that away: the configuration "p at its select for s,
+   j inside Close of s" and the fact that done is closed are stable under steps of all other threads *)
+Theorem pub_released_stable : forall v st t l st' br p s vis j x,
+  step v st t l = Some (st', br) -> t <> TPub p -> t <> TSub s j ->
+  pp st p = PSend s vis -> kp st s j = KClose x ->
+  pp st' p = PSend s vis /\ kp st' s j = KClose x /\
+  (done (subs st s) = true -> done (subs st' s) = true).
+Proof.
+  intros v st t l st' br p s vis j x H N1 N2 Hp Hk. split; [|split].
+  - rewrite (step_frame_p _ _ _ _ _ _ _ H N1). exact Hp.
+  - destruct (step_frame_k _ _ _ _ _ _ s j H N2) as [E | [E _]]; congruence.
+  - apply (step_mono _ _ _ _ _ _ H s).
+Qed.
+
+Definition xrank (x : xpc) : nat :=
+  match x with XCheck => 7 | XCloseDone => 6 | XLockT => 5 | XUnsub => 4 | XUnlockT => 3 | XClear => 2 | XUnlockS => 1 end.
+
+(* Close itself: from any pc inside Close, once Topic.mu is free (or already ours), the closer ALONE
+   finishes in at most 7 steps, all enabled; afterwards the subscription is closed and unlocked. *)
+Theorem close_completes : forall n st s j x, xrank x <= n -> inv st -> kp st s j = KClose x ->
+  (tmu st = None \/ tmu st = Some (TSub s j)) ->
+  exists m st', m <= xrank x /\ run VFixed (repeat (TSub s j, L0) m) st = Some st' /\
+    kp st' s j = KIdle /\ cleared (subs st' s) = true /\ smu (subs st' s) = None /\ inv st'.
+Proof.
+  induction n; intros st s j x Hr I Hk Ht.
+  - destruct x; cbn in Hr; lia.
+  - assert (Hlk : x = XLockT -> tmu st = None).
+    { intros ->. destruct Ht as [|Ht]; auto. pose proof (i_tmu2 _ I _ Ht) as Hh.
+      cbn in Hh. rewrite Hk in Hh. discriminate. }
+    destruct (x_step st s j x I Hk Hlk) as (st1 & b1 & S1 & K1 & P1 & T1 & D1 & U1).
+    pose proof (inv_step _ _ _ _ _ I S1) as I1.
+    assert (Ht1 : tmu st1 = None \/ tmu st1 = Some (TSub s j)) by (rewrite T1; destruct x; auto).
+    destruct x; cbn [xnextpc] in K1.
+    + destruct (cleared (subs st s)).
+      * destruct (IHn st1 s j XUnlockS) as (m & st2 & Hm & R & A & B & C & D); auto; [cbn [xrank] in *; lia|].
+        exists (S m), st2. split; [cbn [xrank] in *; lia|]. split; [cbn [repeat run]; rewrite S1; exact R|]. split; [|split; [|split]]; auto.
+      * destruct (IHn st1 s j XCloseDone) as (m & st2 & Hm & R & A & B & C & D); auto; [cbn [xrank] in *; lia|].
+        exists (S m), st2. split; [cbn [xrank] in *; lia|]. split; [cbn [repeat run]; rewrite S1; exact R|]. split; [|split; [|split]]; auto.
+    + destruct (IHn st1 s j XLockT) as (m & st2 & Hm & R & A & B & C & D); auto; [cbn [xrank] in *; lia|].
+      exists (S m), st2. split; [cbn [xrank] in *; lia|]. split; [cbn [repeat run]; rewrite S1; exact R|]. split; [|split; [|split]]; auto.
+    + destruct (IHn st1 s j XUnsub) as (m & st2 & Hm & R & A & B & C & D); auto; [cbn [xrank] in *; lia|].
+      exists (S m), st2. split; [cbn [xrank] in *; lia|]. split; [cbn [repeat run]; rewrite S1; exact R|]. split; [|split; [|split]]; auto.
+    + destruct (IHn st1 s j XUnlockT) as (m & st2 & Hm & R & A & B & C & D); auto; [cbn [xrank] in *; lia|].
+      exists (S m), st2. split; [cbn [xrank] in *; lia|]. split; [cbn [repeat run]; rewrite S1; exact R|]. split; [|split; [|split]]; auto.
+    + destruct (IHn st1 s j XClear) as (m & st2 & Hm & R & A & B & C & D); auto; [cbn [xrank] in *; lia|].
+      exists (S m), st2. split; [cbn [xrank] in *; lia|]. split; [cbn [repeat run]; rewrite S1; exact R|]. split; [|split; [|split]]; auto.
+    + destruct (IHn st1 s j XUnlockS) as (m & st2 & Hm & R & A & B & C & D); auto; [cbn [xrank] in *; lia|].
+      exists (S m), st2. split; [cbn [xrank] in *; lia|]. split; [cbn [repeat run]; rewrite S1; exact R|]. split; [|split; [|split]]; auto.
+    + exists 1, st1. split; [cbn; lia|]. split; [cbn [repeat run]; rewrite S1; reflexivity|].
+      split; auto. split; [|split; auto].
+      pose proof (i_pc _ I _ _ _ Hk) as Hx. cbn in Hx.
+      apply (step_mono _ _ _ _ _ _ S1 s). exact Hx.
+Qed.
+
+(* st' differs from st at most in the pc/script of thread (s,j) *)
+Definition same_but (st st' : state) (s j : nat) : Prop :=
+  tmu st' = tmu st /\ last st' = last st /\ bad st' = bad st /\ nsub st' = nsub st /\
+  (forall s0, subs st' s0 = subs st s0) /\
+  (forall s0 j0, (s0 <> s \/ j0 <> j) -> kp st' s0 j0 = kp st s0 j0 /\ ks st' s0 j0 = ks st s0 j0) /\
+  (forall p, pp st' p = pp st p /\ ps st' p = ps st p).
+
+(* Close is idempotent: on a subscription that has been closed (by anyone), a further Close from ANY
+   goroutine j is lock, look, unlock — three steps, all enabled, and the shared state afterwards is
+   exactly what it was. *)
+Theorem close_idempotent : forall st s j r, inv st -> kp st s j = KIdle -> ks st s j = AClose :: r ->
+  ret (subs st s) = true -> cleared (subs st s) = true -> smu (subs st s) = None ->
+  exists st', run VFixed [(TSub s j, L0); (TSub s j, L0); (TSub s j, L0)] st = Some st' /\
+     kp st' s j = KIdle /\ ks st' s j = r /\ same_but st st' s j.
+Proof.
+  intros st s j r I Hk Hs Hret Hclr Hsmu. pose proof (i_bad _ I) as Hb.
+  eexists. split.
+  { cbn [run]. unfold step at 1. rewrite Hb. unfold sstep at 1. cbv zeta. rewrite Hk, Hs, Hret, Hsmu. cbn [is_none].
+    unfold step at 1. simp. rewrite Hb. unfold sstep at 1. cbv zeta. simp. rewrite !Nat.eqb_refl.
+    unfold xstep at 1. cbv zeta. simp. rewrite !Nat.eqb_refl. simp. rewrite Hclr.
+    unfold step at 1. simp. rewrite Hb. unfold sstep at 1. cbv zeta. simp. rewrite !Nat.eqb_refl.
+    unfold xstep at 1. cbv zeta. reflexivity. }
+  simp. rewrite !Nat.eqb_refl. split; auto. split; auto.
+  unfold same_but. simp. repeat split; auto.
+  - intros s0. eqb_tac; auto. destruct (subs st s); cbn in *. subst. reflexivity.
+  - destruct H as [H | H]; eqb_tac; auto; congruence.
+  - destruct H as [H | H]; eqb_tac; auto; congruence.
+Qed.
